@@ -450,15 +450,24 @@ fn cmd_emit(args: &[String]) {
             for a in list {
                 let label = a.get("label").and_then(|l| l.as_str()).unwrap_or("assigned");
                 let pw = pw_from_named(&b, a.get("named").unwrap_or(&Value::Null));
-                match ir::honest_witness(&b.data, pw, label) {
-                    Ok(w) => wits.push(w),
-                    Err(e) => {
-                        if a.get("expect_fail").and_then(|v| v.as_bool()) == Some(true) {
-                            wits.push(ir::Witness { label: format!("{label}:GENFAIL"), vals: BTreeMap::new(), aux: "{}".into() });
-                        } else {
-                            panic!("honest witness {} {label}: {e}", b.name)
-                        }
+                let named_json = a.get("named").map(|v| v.to_string()).unwrap_or_else(|| "{}".into());
+                // a failing honest generator is DATA for the checker (completeness probe), not an emitter error
+                let res = std::panic::catch_unwind(std::panic::AssertUnwindSafe(|| ir::honest_witness(&b.data, pw, label)));
+                match res {
+                    Ok(Ok(mut w)) => {
+                        w.aux = format!("{{\"named\":{named_json}}}");
+                        wits.push(w)
                     }
+                    Ok(Err(e)) => wits.push(ir::Witness {
+                        label: format!("{label}:GENFAIL"),
+                        vals: BTreeMap::new(),
+                        aux: format!("{{\"genfail\":{:?},\"named\":{named_json}}}", e),
+                    }),
+                    Err(_) => wits.push(ir::Witness {
+                        label: format!("{label}:GENFAIL"),
+                        vals: BTreeMap::new(),
+                        aux: format!("{{\"genfail\":\"generator panicked\",\"named\":{named_json}}}"),
+                    }),
                 }
             }
         }
